@@ -80,6 +80,7 @@ pub struct Exec<'a> {
     pub desynced: bool,
     /// set when an index file may be on disk while its index is in memory (C15 disk_used finding #12 domain)
     pub restored_once: bool,
+    pub stale_possible: bool,
 }
 
 type R<T = ()> = std::result::Result<T, Failure>;
@@ -87,7 +88,7 @@ type R<T = ()> = std::result::Result<T, Failure>;
 impl<'a> Exec<'a> {
     pub fn new(cfg: Cfg, dir: PathBuf, checks: Checks, nkeys: u8, metas: u8, findings: &'a Findings) -> Self {
         let model = Model::new(cfg.allow_dup);
-        Exec { cfg, dir, sut: None, model, checks, nkeys, metas, labels: BTreeSet::new(), stats: Stats::default(), findings, known_hits: BTreeSet::new(), step: 0, cur_op: String::new(), desynced: false, restored_once: false }
+        Exec { cfg, dir, sut: None, model, checks, nkeys, metas, labels: BTreeSet::new(), stats: Stats::default(), findings, known_hits: BTreeSet::new(), step: 0, cur_op: String::new(), desynced: false, restored_once: false, stale_possible: false }
     }
 
     pub fn fail<T>(&self, clause: &str, detail: String) -> R<T> {
@@ -194,6 +195,7 @@ impl<'a> Exec<'a> {
                 let exp = self.model.delete(*key, *ts, mm.clone(), *only_if);
                 if closed_before.iter().any(|b| self.model.blobs[b].last().map_or(false, |r| r.is_del() && r.key == *key && r.ts == *ts)) && exp > 0 {
                     self.labels.insert("delete_in_closed");
+                    self.stale_possible = true;
                 }
                 self.stats.deletes += 1;
                 match self.s().delete(&self.key(*key), *ts, mm.as_ref().map(to_meta), *only_if).await {
@@ -337,7 +339,23 @@ impl<'a> Exec<'a> {
     }
 
     pub async fn reopen(&mut self, lazy: bool, remove_all_idx: bool, damage: &[Damage]) -> R {
+        // a closed blob that received a deletion marker after its index was written has a stale index file
+        // unless the deferred re-dump already happened
+        if self.stale_possible {
+            for (id, is_idx, p) in sut::list_files(&self.dir) {
+                if is_idx {
+                    if let (Ok(ib), Ok(bm)) = (std::fs::read(&p), sut::blob_path(&self.dir, id).metadata()) {
+                        if let Some(l) = crate::blobfmt::index_layout(&ib) {
+                            if l.blob_size != bm.len() && self.model.active != Some(id) {
+                                self.labels.insert("stale_index");
+                            }
+                        }
+                    }
+                }
+            }
+        }
         self.close().await?;
+        self.stale_possible = false;
         self.stats.reopens += 1;
         self.labels.insert("reopen");
         self.labels.insert("repr_change");
